@@ -6,7 +6,7 @@
   before parents, reset of the memoised facts of every notified node), `sym_rebind` (notification
   unless `skip_notification` / `notify_on_change(False)`), the accessor writes of dict.py / list.py /
   object.py (single update, notified under `flags.is_change_notification_enabled()`), `Dict.update`
-  (`skip_notification=True`). THE MODEL MIRRORS THE TREE WITH fixes/C09-F55.patch AND fixes/C09-F110.patch
+  (`skip_notification=True`). THE MODEL MIRRORS THE TREE WITH fixes/C09-F55.patch AND fixes/C09-F112.patch
   APPLIED: `clear`, `popitem`, `sort`, `reverse` report what they removed / moved, `del l[-1]` reports
   the position.
 
